@@ -6,7 +6,7 @@
    Case formats (harness/go/network/zz_verif_c43_test.go):
      (consts step avg max fbuckets fsize)
      (tag #tt limit dedup)
-     (slurp base max ((limit total script data (err size contentok nbuf remained alloc bytes)) ...))
+     (slurp base max ((limit total script data (err size contentok nbuf remained alloc held bytes)) ...))
      (filter n max ((id add promote) ...) (has ...) (top (ids...) ...))
      (net n max npeers ((peer #tt id total script (delivered closed len contentok)) ...))
    script = ((k kind) ...), kind 0 data / 1 data, EOF with the last bytes / 2 error. *)
@@ -31,9 +31,13 @@ Definition alloc_bound (base' maxA limit : N) : N :=
 (* observation of one Reset+Read: outcome code (0 ok, 1 too large, 2 reader error, 3 panic,
    4 other/out of fuel), Size(), Bytes() = message prefix, remainedUnallocatedSpace, sum of caps *)
 Definition spec_slurp_msg (base maxA limit total : N) (script : list ev)
-           (err size : N) (cok : bool) (remained alloc : N) : bool :=
+           (err size : N) (cok : bool) (remained alloc held : N) : bool :=
   let base' := N.min base maxA in
   (alloc + remained =? maxA) && (base' <=? alloc) && (alloc <=? alloc_bound base' maxA limit) &&
+  (* bytes of this message read into memory (currentMessageBytesRead): within what is allocated;
+     beyond the per-message limit only when the message is being rejected for it *)
+  (held <=? alloc) && (if (0 <? limit) && (limit <? held) then err =? 1 else true) &&
+  (if err =? 0 then held =? size else true) &&
   (match err with
    | 0 => (size =? total) && cok && negb (too_long limit maxA total)
    | 1 => too_long limit maxA total
@@ -41,6 +45,16 @@ Definition spec_slurp_msg (base maxA limit total : N) (script : list ev)
    | _ => false
    end) &&
   (has_err script || (err =? (if too_long limit maxA total then 1 else 0))).
+
+(* The property text read literally -- "never buffers more than that limit while reading":
+   held <= limit.  This is FALSE of the code (props/C43.v: C43_literal_limit_refuted): a whole
+   chunk is read into the free buffer space before the limit is checked, and a tag without a
+   limit (MaxMessageSize() = 0) is read up to the connection maximum.  A case where only this
+   literal bound fails, while the proved slack bound of [spec_slurp_msg] holds, carries the
+   signature of a recorded finding. *)
+Definition literal_ok (limit held : N) : bool := held <=? limit.
+Definition literal_finding (limit : N) : string :=
+  if limit =? 0 then "c43_unlimited_tag_buffered" else "c43_buffer_slack".
 
 (* ------------------------------------------------------------------ slurper: model observation *)
 Definition outcome_code (o : outcome) : N :=
@@ -54,7 +68,7 @@ Fixpoint chain_end (a : N) (segs : list (N * N)) : option N :=
   end.
 
 Record sobs := mkSobs { so_err : N; so_size : N; so_cok : bool; so_nbuf : N; so_rem : N;
-                        so_alloc : N; so_segs : list (N * N) }.
+                        so_alloc : N; so_held : N; so_segs : list (N * N) }.
 
 Definition model_slurp_msg (s : slurper) (limit total : N) (script : list ev) : slurper * sobs :=
   let '(o, s', r') := slurp s limit total script in
@@ -63,7 +77,7 @@ Definition model_slurp_msg (s : slurper) (limit total : N) (script : list ev) : 
               (if ok then match chain_end 0 (segments s') with
                           | Some e => (e =? size s') && (e <=? total) | None => false end
                else true)
-              (N.of_nat (List.length (ext s'))) (remained s') (allocated s')
+              (N.of_nat (List.length (ext s'))) (remained s') (allocated s') (bytesRead s')
               (if ok then segments s' else [])).
 
 (* ------------------------------------------------------------------ parsing helpers *)
@@ -80,31 +94,42 @@ Definition parse_script (t : term) : option (list ev) :=
 Definition bytes_eqb : list N -> list N -> bool := list_eqb N.eqb.
 
 (* verdict accumulation over the parts of one case: 4 parse error dominates, then 3, then 2 *)
-Record acc := mkAcc { a_parse : bool; a_spec : bool; a_corr : bool; a_nontriv : bool }.
-Definition acc0 : acc := mkAcc true true true false.
-Definition acc_and (a : acc) (spec corr nt : bool) : acc :=
-  mkAcc (a_parse a) (a_spec a && spec) (a_corr a && corr) (a_nontriv a || nt).
-Definition acc_bad (a : acc) : acc := mkAcc false (a_spec a) (a_corr a) (a_nontriv a).
+Record acc := mkAcc { a_parse : bool; a_spec : bool; a_corr : bool; a_nontriv : bool;
+                      a_known : option string }.
+Definition acc0 : acc := mkAcc true true true false None.
+Definition acc_and (a : acc) (spec corr nt : bool) (known : option string) : acc :=
+  mkAcc (a_parse a) (a_spec a && spec) (a_corr a && corr) (a_nontriv a || nt)
+        (match a_known a with Some k => Some k | None => known end).
+Definition acc_bad (a : acc) : acc := mkAcc false (a_spec a) (a_corr a) (a_nontriv a) (a_known a).
+(* 4 unparsable > 3 property violated > 2 model <> implementation > 5 recorded finding > 1/0 *)
+Definition known_verdict (spec corr nontriv : bool) (known : option string) (detail : term) : term :=
+  match known with
+  | Some name => if spec && corr then v_known name detail else verdict spec corr nontriv detail
+  | None => verdict spec corr nontriv detail
+  end.
 Definition acc_verdict (a : acc) (detail : term) : term :=
-  if negb (a_parse a) then v_parse else verdict (a_spec a) (a_corr a) (a_nontriv a) detail.
+  if negb (a_parse a) then v_parse
+  else known_verdict (a_spec a) (a_corr a) (a_nontriv a) (a_known a) detail.
 
 (* ------------------------------------------------------------------ slurp cases *)
 Definition sobs_term (o : sobs) : term :=
-  TL [tn (so_err o); tn (so_size o); tb (so_cok o); tn (so_nbuf o); tn (so_rem o); tn (so_alloc o)].
+  TL [tn (so_err o); tn (so_size o); tb (so_cok o); tn (so_nbuf o); tn (so_rem o); tn (so_alloc o);
+      tn (so_held o)].
 
 Fixpoint slurp_msgs (base maxA : N) (s : slurper) (msgs : list term) (a : acc) (det : list term)
   : acc * list term :=
   match msgs with
   | [] => (a, rev det)
   | TL [TZ limit; TZ total; sc; data;
-        TL [TZ err; TZ sz; TZ cok; TZ nbuf; TZ rem; TZ alloc; bytes]] :: rest =>
+        TL [TZ err; TZ sz; TZ cok; TZ nbuf; TZ rem; TZ alloc; TZ held; bytes]] :: rest =>
       match parse_script sc, as_bool (TZ cok) with
       | Some script, Some cokb =>
           let limit := Z.to_N limit in let total := Z.to_N total in
           let err := Z.to_N err in let sz := Z.to_N sz in
-          let rem := Z.to_N rem in let alloc := Z.to_N alloc in
+          let rem := Z.to_N rem in let alloc := Z.to_N alloc in let held := Z.to_N held in
           let '(s', m) := model_slurp_msg s limit total script in
-          let spec := spec_slurp_msg base maxA limit total script err sz cokb rem alloc in
+          let spec := spec_slurp_msg base maxA limit total script err sz cokb rem alloc held in
+          let known := if literal_ok limit held then None else Some (literal_finding limit) in
           (* byte-exact comparison when the harness included the message bytes *)
           let bytes_spec := match data, bytes with
                             | TB d, TB b => if err =? 0 then bytes_eqb b d else true
@@ -115,8 +140,8 @@ Fixpoint slurp_msgs (base maxA : N) (s : slurper) (msgs : list term) (a : acc) (
           let data_ok := match data with TB d => N.of_nat (List.length d) =? total | _ => true end in
           let corr := (so_err m =? err) && (so_size m =? sz) && Bool.eqb (so_cok m) cokb &&
                       (so_nbuf m =? Z.to_N nbuf) && (so_rem m =? rem) && (so_alloc m =? alloc) &&
-                      bytes_corr in
-          let a' := if data_ok then acc_and a (spec && bytes_spec) corr (0 <? total) else acc_bad a in
+                      (so_held m =? held) && bytes_corr in
+          let a' := if data_ok then acc_and a (spec && bytes_spec) corr (0 <? total) known else acc_bad a in
           slurp_msgs base maxA s' rest a' (sobs_term m :: det)
       | _, _ => (acc_bad a, rev det)
       end
@@ -251,6 +276,12 @@ Fixpoint spec_net_walk (n : N) (maxsz : Z) (npeers : nat) (steps : list nstep) (
 Definition spec_net (n : N) (maxsz : Z) (npeers : nat) (steps : list nstep) : bool :=
   spec_net_walk n maxsz npeers steps 0 [] [].
 
+(* signature of the recorded finding at this level: a non-empty frame of a tag without a limit
+   was read completely (connection kept) and dropped -- it was buffered although its limit is 0 *)
+Definition net_unlimited_buffered (steps : list nstep) : bool :=
+  existsb (fun st => (tag_limit (ftag (ns_frame st)) =? 0) && (0 <? ftotal (ns_frame st)) &&
+                     negb (ns_closed st) && (ns_delivered st =? 0)) steps.
+
 (* ------------------------------------------------------------------ net cases *)
 Definition parse_nstep (t : term) : option nstep :=
   match t with
@@ -286,8 +317,9 @@ Definition net_case (n maxsz npeers : Z) (stepst : list term) : term :=
             (d =? ns_delivered s) && Bool.eqb c (ns_closed s) && (l =? ns_len s) && same ms' ss'
         | _, _ => false
         end in
-      verdict (spec_net (Z.to_N n) maxsz (Z.to_nat npeers) steps) (same mres steps)
+      known_verdict (spec_net (Z.to_N n) maxsz (Z.to_nat npeers) steps) (same mres steps)
               (existsb (fun s => ns_delivered s =? 1) steps)
+              (if net_unlimited_buffered steps then Some "c43_unlimited_tag_buffered"%string else None)
               (TL (map (fun m => let '(d, c, l) := pres_obs m 0 in TL [tn d; tb c; tn l]) mres))
   | _, _ => v_parse
   end.
